@@ -13,6 +13,8 @@ Numerical support / falsifier (on the implementation, independent oracles):
     arithmetic from the same binary64 inputs: pure fractions.Fraction for tiny cases, and 512-bit
     dyadic rationals (each product rounded to a multiple of 2^-512) otherwise;
   * symmetry and PSD of Qd, zero step exactly (Phi == I, Qd == 0 bit for bit);
+  * linearity in Q: Qd(2^k Q) == 2^k Qd(Q) and Phi independent of Q (Q spans 1e-20 .. 1e6; every tolerance
+    is homogeneous of degree 1 in Q, so a zero or mis-scaled Qd for a tiny Q is a violation);
   * composition over random partitions of dt into 1..8 sub-steps (transitions multiply, noise
     accumulates through the later transitions, covariance propagation independent of the partition);
   * inputs unmodified.
@@ -34,11 +36,13 @@ import scipy.linalg as sla
 
 RULE = ("translator: matrix-granularity trace of kalman.compute_process_matrices validated on 60 random "
         "inputs per run; numeric support: F stable / unstable / nilpotent / zero / skew / random with "
-        "|F| dt up to 20, n in 1..24, Q PSD of every rank incl. 0, dt in [0, 10] incl. 0, partitions of dt into "
-        "1..8 sub-steps; a case is distinct by (n, kind, rank Q, dt class, #sub-steps, index)")
+        "|F| dt log-uniform 1e-4..20, n in 1..24, Q PSD of every rank incl. 0 with overall scale log-uniform "
+        "1e-20..1e6, dt in [0, 10] incl. 0, partitions of dt into 1..8 sub-steps, Q rescaled by 2^k (linearity); "
+        "all comparisons homogeneous in Q; a case is distinct by (n, kind, rank Q, dt class, #sub-steps, index)")
 
 EPS = 2.0 ** -52
 MARGIN = 2.0e5
+TRUNC_MARGIN = 100.0       # margin on the (deterministic) Pade truncation term
 PREC = 512
 ONE = 1 << PREC
 
@@ -182,21 +186,26 @@ def make_case(rng, idx, nmax):
         F = F - F.T
     dclass = rng.choice(['zero', 'uniform', 'uniform', 'log'])
     dt = 0.0 if dclass == 'zero' else (rng.uniform(0, 10) if dclass == 'uniform' else 10 ** rng.uniform(-4, 1))
-    theta = rng.choice([0.1, 1.0, 3.0, 10.0, 20.0])
+    # |F| dt over its whole range: clipped from above at theta, or set to theta exactly (log-uniform)
+    theta = rng.choice([0.1, 1.0, 3.0, 10.0, 20.0, 10 ** rng.uniform(-4, math.log10(20.0))])
     nf = float(np.abs(F).sum(axis=0).max()) if n else 0.0
-    if nf * dt > theta:
+    if nf * dt > theta or (nf * dt > 0 and rng.random() < 0.3):
         F = F * (theta / (nf * dt))
+    # Q: PSD of every rank, overall scale log-uniform over 26 decades (sensor noise densities are ~1e-14)
     rk = rng.randint(0, n)
     b = _randn(rng, n, rk) if rk else np.zeros((n, 1))
-    Q = b @ b.T * 10 ** rng.uniform(-3, 3)
+    qscale = 10 ** rng.uniform(-20, 6)
+    Q = b @ b.T
     Q = (Q + Q.T) / 2
+    if Q.any():
+        Q = Q * (qscale / float(np.abs(Q).max()))
     k = rng.randint(1, 8)
     cuts = sorted(rng.random() for _ in range(k - 1))
     parts = [(b_ - a_) * dt for a_, b_ in zip([0.0] + cuts, cuts + [1.0])]
     a = _randn(rng, n, n)
     P0 = a @ a.T * 10 ** rng.uniform(-2, 2)
     return dict(idx=idx, n=n, kind=kind, rankQ=rk, dclass=dclass, F=F, Q=Q, dt=float(dt), parts=parts, P0=P0,
-                order=rng.choice(['C', 'F']))
+                order=rng.choice(['C', 'F']), qscale=qscale, lin=2.0 ** rng.randint(-60, 40))
 
 
 # ---------------------------------------------------------------------------
@@ -206,20 +215,60 @@ def _n1(a):
     return float(np.abs(a).sum(axis=0).max()) if a.size else 0.0
 
 
+_PADE = [(3, 1.495585217958292e-2), (5, 2.539398330063230e-1), (7, 9.504178996162932e-1), (9, 2.097847961257068)]
+
+
+def _pade_truncation(X, n):
+    """Leading truncation term, in the upper-right block, of the low-order Pade approximant that
+    scipy's expm (Al-Mohy & Higham 2009) selects from d_k = |X^k|^(1/k), k = 4, 6, 8, 10.
+
+    The selection is NORMWISE: when the powers of F vanish or are tiny (nilpotent F of index <= 4:
+    chains of integrators) while F^i Q (F^T)^j does not, a tiny Q makes d_k tiny, a low order m is
+    chosen and the term c_m X^(2m+1) that is dropped is negligible against |exp X| ~ 1 but NOT against
+    the upper-right block (which is itself of the size of Q).  This is deterministic truncation, not
+    rounding; it is reported as a finding and modelled here (homogeneous in Q) so that the unchanged
+    tree does not alarm.  c_m = (m!)^2 / ((2m)! (2m+1)!)."""
+    if n == 0:
+        return 0.0
+    pw = {1: X}
+    for k in (2, 3):
+        pw[k] = pw[k - 1] @ X
+    pw[4] = pw[2] @ pw[2]
+    pw[6] = pw[4] @ pw[2]
+    pw[8] = pw[4] @ pw[4]
+    d = {k: _n1(pw[k]) ** (1.0 / k) for k in (4, 6, 8)}
+    eta = {3: max(d[4], d[6]), 5: max(d[4], d[6]), 7: max(d[6], d[8]), 9: max(d[6], d[8])}
+    worst = 0.0
+    for m, theta in _PADE:
+        if eta[m] < 2.0 * theta:                 # slack: scipy estimates the norms
+            k = 2 * m + 1
+            P = np.linalg.matrix_power(X, k)
+            cm = math.factorial(m) ** 2 / (math.factorial(2 * m) * math.factorial(2 * m + 1))
+            worst = max(worst, cm * _n1(P[:n, n:]))
+    return worst
+
+
 def _scale(F, Q, dt):
-    """rounding units (absolute) of Phi and Qd for one call."""
+    """rounding units (absolute) of Phi and Qd for one call.  Everything that concerns Qd is
+    homogeneous of degree 1 in Q (Qd is linear in Q, and so is the rounding error of the upper-right
+    block of a block-triangular computation), so a zero or wrongly scaled Qd cannot hide behind an
+    absolute tolerance; Phi does not depend on Q except through the number of squarings (|X|).
+    `trunc` is the Pade truncation term (see _pade_truncation), compared with its own margin."""
     n = len(F)
     X = np.zeros((2 * n, 2 * n))
     X[:n, :n], X[:n, n:], X[n:, n:] = F, Q, -F.T
     X = X * dt
     E = sla.expm(X)                       # only its magnitudes are used
-    nx, nE = _n1(X), _n1(E)
-    n11, n12 = _n1(E[:n, :n]), _n1(E[:n, n:])
-    bE = EPS * (1 + nx) * nE
-    return dict(bPhi=bE + 1e-300, bQd=bE * (n11 + n12) + EPS * n * n11 * n12 + 1e-300, nx=nx)
+    nx = _n1(X)
+    n11, n12, n22 = _n1(E[:n, :n]), _n1(E[:n, n:]), _n1(E[n:, n:])
+    nd = max(n11, n22, 1.0)
+    u = EPS * (1 + nx) * nd
+    q12 = max(n12, _n1(Q) * dt)           # magnitude of the upper-right block and of what it is summed from
+    trunc = _pade_truncation(X, n) * max(n11, 1.0) * TRUNC_MARGIN / MARGIN      # in units of MARGIN
+    return dict(bPhi=u + 1e-300, bQd=u * q12 * max(n11, 1.0) + EPS * n * n11 * n12 + trunc, nx=nx)
 
 
-def check_case(c, oracle='auto', verbose=False):
+def check_case(c, oracle='auto', verbose=False, stats=None):
     from pyins import kalman
     fails, worst = [], [0.0]
 
@@ -227,6 +276,9 @@ def check_case(c, oracle='auto', verbose=False):
         tol = MARGIN * units
         ratio = err / tol if tol > 0 else (0.0 if err == 0 else math.inf)
         worst[0] = max(worst[0], ratio)
+        if stats is not None:
+            k = what.split(' (')[0].split(' of ')[0]
+            stats[k] = max(stats.get(k, 0.0), ratio if math.isfinite(ratio) else 1e300)
         if verbose:
             print(f"  {what}: error {err:.3e}  tolerance {tol:.3e}")
         if not err <= tol:
@@ -270,6 +322,19 @@ def check_case(c, oracle='auto', verbose=False):
     if n:
         cmp("Qd not positive semidefinite", max(0.0, -float(np.linalg.eigvalsh((Qd + Qd.T) / 2)[0])),
             n * sc['bQd'])
+    # linearity in Q (power-of-two factor: c * Qd is exact) and Phi independent of Q
+    lin = float(c.get('lin') or 0.0)
+    if lin and Q.any():
+        try:
+            out = kalman.compute_process_matrices(F, Q * lin, dt)
+            Phi2, Qd2 = np.asarray(out[0], float), np.asarray(out[1], float)
+        except Exception as ex:
+            fails.append((f"compute_process_matrices raised {type(ex).__name__} for Q scaled by {lin!r}", {}))
+            return fails, math.inf
+        s2 = _scale(F, Q * lin, dt)
+        cmp("Qd is not linear in Q: Qd(c Q) != c Qd(Q)", float(np.abs(Qd2 - lin * Qd).max(initial=0.0)),
+            s2['bQd'] + lin * sc['bQd'], factor=lin)
+        cmp("Phi depends on Q", float(np.abs(Phi2 - Phi).max(initial=0.0)), s2['bPhi'] + sc['bPhi'], factor=lin)
     # composition over the partition (first sub-step first)
     parts = [float(t) for t in c.get('parts') or []]
     if len(parts) > 1 and dt > 0.0:
@@ -306,7 +371,7 @@ def check_case(c, oracle='auto', verbose=False):
 # ---------------------------------------------------------------------------
 
 def _hexcase(c):
-    out = {k: c[k] for k in ('idx', 'n', 'kind', 'rankQ', 'dclass', 'order') if k in c}
+    out = {k: c[k] for k in ('idx', 'n', 'kind', 'rankQ', 'dclass', 'order', 'qscale', 'lin', 'exact_nmax') if k in c}
     for k in ('F', 'Q', 'P0'):
         a = np.asarray(c[k], dtype=float)
         out[k] = [float(v).hex() for v in a.ravel()]
@@ -328,18 +393,21 @@ def _unhex(o):
 def numeric_statements(r, count, seed_off, nmax=24, exact_nmax=8):
     rng = random.Random(r.seed * 1000003 + seed_off)
     fails, worst, dist = [], 0.0, {}
+    stats = {}
     for i in range(count):
         c = make_case(rng, i, nmax)
         c['exact_nmax'] = exact_nmax
-        f, w = check_case(c)
+        f, w = check_case(c, stats=stats)
         worst = max(worst, w) if math.isfinite(w) else worst
         r.case((c['n'], c['kind'], c['rankQ'], c['dclass'], len(c['parts']), i),
                sample=dict(n=c['n'], F=c['kind'], rankQ=c['rankQ'], dt=c['dt'], substeps=len(c['parts'])))
         for k in (f"n={c['n']}", 'F:' + c['kind'], 'dt:' + c['dclass'], f"substeps={len(c['parts'])}",
+                  f"Qscale=1e{int(math.floor(math.log10(c['qscale']) / 4) * 4)}..",
                   'Q:' + ('zero' if c['rankQ'] == 0 else 'singular' if c['rankQ'] < c['n'] else 'full')):
             dist[k] = dist.get(k, 0) + 1
         for what, det in f:
             fails.append((what, dict(key='C08-numeric', case=_hexcase(c), detail=det)))
+    dist['_worst_ratio_by_statement'] = {k: float(f'{v:.3g}') for k, v in sorted(stats.items())}
     return fails, worst, dist
 
 
@@ -358,8 +426,8 @@ def check(r):
         "NOT proved: scipy's Pade approximant equals the limit of the series up to rounding -- checked numerically "
         "against exact rational arithmetic",
     ]
-    gen_mx.run_generate(r, ['Kalman'])
-    r.prove('Props/C08.v')
+    ok = gen_mx.run_generate(r, ['Kalman'])
+    gen_mx.prove_or_undischarged(r, ok, 'Props/C08.v')     # never proves against a stale Gen file
     n = 600 if r.tier == "quick" else 20000
     fails, worst, dist = numeric_statements(r, n, 8, nmax=24, exact_nmax=8 if r.tier == "quick" else 12)
     r.coverage['distribution'] = dist
@@ -373,7 +441,8 @@ def check(r):
 
 
 def falsify(r):
-    fails, worst, _ = numeric_statements(r, 500, 88, nmax=6)
+    # always a search on the REAL function (independent of Gen/Kalman.v and of the translator)
+    fails, worst, _ = numeric_statements(r, 3000, 88, nmax=8)
     r.log(f"falsifier: {len(fails)} failing checks, worst error/tolerance {worst:.2e}")
     seen = set()
     for what, rep in fails:
